@@ -197,7 +197,11 @@ def gen_c01(r, tier):
                        'identity_fault': r.weighted([(12, None),
                                                      (1, 'keyerror'),
                                                      (0.5, 'oserror')]),
-                       'deprecations_are_errors': r.chance(0.08)},
+                       'deprecations_are_errors': r.chance(0.08),
+                       'default_encoding': r.weighted([(8, None),
+                                                       (0.5, 'ascii'),
+                                                       (0.5, 'cp1252'),
+                                                       (0.5, 'latin-1')])},
             'ops': ops}
 
 
@@ -215,7 +219,8 @@ def gen_c09(r, tier):
             ops.append({'op': 'handwritten', 'client': 'A', 'into': name,
                         'cs': gcs.gen_handwritten(
                             r, frames[r.randrange(nframes)])})
-        path = r.pick(['c.tdda', 'shared.tdda', 'c%d.tdda' % j])
+        path = r.pick(['c.tdda', 'shared.tdda', 'c%d.tdda' % j,
+                       'sales_$REGION.tdda', 'cs_${REGION}.tdda'])
         ops.append({'op': 'roundtrip', 'client': 'A', 'cs': name,
                     'path': path, 'cycles': r.randint(1, 4),
                     'tddafile': r.chance(0.6),
@@ -240,7 +245,11 @@ def gen_c09(r, tier):
                        'identity_fault': r.weighted([(12, None),
                                                      (1, 'keyerror'),
                                                      (0.5, 'oserror')]),
-                       'deprecations_are_errors': r.chance(0.08)},
+                       'deprecations_are_errors': r.chance(0.08),
+                       'default_encoding': r.weighted([(8, None),
+                                                       (0.5, 'ascii'),
+                                                       (0.5, 'cp1252'),
+                                                       (0.5, 'latin-1')])},
             'ops': ops}
 
 
@@ -268,6 +277,8 @@ def gen_c06(r, tier):
                     'cs_inline': cs, 'via': r.pick(['dict', 'file']),
                     'opts': opts,
                     'type_checking': r.pick([None, None, 'strict'])})
+        if opts.get('outpath') and r.chance(0.12):
+            ops[-1]['remove_fault'] = True
         if ops[-1]['via'] == 'file' and r.chance(0.6):
             # the user keeps rewriting one constraints file
             ops[-1]['tdda_name'] = r.pick(['constraints.tdda', 'c.tdda'])
@@ -397,6 +408,9 @@ def execute(plan):
         sys.stderr = io.StringIO()
         try:
             ctx.default_encoding = plan['config'].get('default_encoding')
+            # a variable some file names happen to mention ($REGION is a
+            # legal part of a file name; nobody asked for it to be expanded)
+            os.environ['REGION'] = 'emea'
             ctx.specs = plan['config']['frames']
             ctx.frames = [gf.build_frame(s) for s in ctx.specs]
             ctx.cs = {}
@@ -543,6 +557,15 @@ def verdict_map(v):
 
 # ---- verify --------------------------------------------------------------
 
+def enc_env(ctx):
+    """The process's default text encoding, where the plan varies it."""
+    import contextlib
+    from sim.defaultenc import DefaultEncoding
+    if getattr(ctx, 'default_encoding', None):
+        return DefaultEncoding(ctx.default_encoding, ctx.stats['faults'])
+    return contextlib.nullcontext()
+
+
 def op_verify(ctx, op):
     from tdda.constraints import verify_df
     rec = get_rec(ctx, op)
@@ -555,7 +578,8 @@ def op_verify(ctx, op):
         and rec['frame'] == op['frame']
     try:
         arg = materialise(ctx, op, rec)
-        v = verify_df(df, arg, repair=op.get('repair', True))
+        with enc_env(ctx):
+            v = verify_df(df, arg, repair=op.get('repair', True))
         outcome = 'ok'
     except WatchdogTimeout:
         raise
@@ -625,6 +649,36 @@ def detect_kwargs(ctx, op):
     return kw
 
 
+class RemoveFails(object):
+    """os.remove/os.unlink of one file fails (EBUSY) while this is active."""
+
+    def __init__(self, path):
+        self.target = os.path.realpath(path)
+        self.fired = 0
+
+    def __enter__(self):
+        self._remove, self._unlink = os.remove, os.unlink
+        me = self
+
+        def failing(path, *a, **kw):
+            try:
+                hit = os.path.realpath(os.fspath(path)) == me.target
+            except Exception:
+                hit = False
+            if hit:
+                me.fired += 1
+                raise fsaudit.FsFaultInjected(16, 'Device or resource busy',
+                                              str(path))
+            return me._remove(path, *a, **kw)
+        os.remove = failing
+        os.unlink = failing
+        return self
+
+    def __exit__(self, *exc):
+        os.remove, os.unlink = self._remove, self._unlink
+        return False
+
+
 def op_detect(ctx, op):
     from tdda.constraints import detect_df, verify_df
     rec = get_rec(ctx, op)
@@ -650,6 +704,12 @@ def op_detect(ctx, op):
     call_kw = dict(kw)
     rel = bool(outpath) and bool((op.get('opts') or {}).get(
         'outpath_relative'))
+    seam = None
+    if op.get('remove_fault') and outpath and os.path.exists(outpath):
+        # the stale output file cannot be removed at this moment (busy,
+        # bind-mounted, open elsewhere)
+        seam = RemoveFails(outpath)
+        seam.__enter__()
     saved_cwd = os.getcwd()
     try:
         arg = materialise(ctx, op, rec)
@@ -659,7 +719,8 @@ def op_detect(ctx, op):
             os.chdir(os.path.dirname(outpath))
             call_kw['outpath'] = os.path.basename(outpath)
             ctx.stats['probes']['relative_output_path'] += 1
-        v = detect_df(df, arg, **call_kw)
+        with enc_env(ctx):
+            v = detect_df(df, arg, **call_kw)
         outcome = 'ok'
     except WatchdogTimeout:
         raise
@@ -668,6 +729,18 @@ def op_detect(ctx, op):
     finally:
         if rel:
             os.chdir(saved_cwd)
+        fired_remove = False
+        if seam is not None:
+            fired_remove = seam.fired > 0
+            seam.__exit__(None, None, None)
+            if fired_remove:
+                ctx.stats['faults']['stale_output_cannot_be_removed'] += 1
+    if fired_remove and outcome == 'exc':
+        # the caller was told
+        ctx.stats['abstain']['remove_error_reported'] += 1
+        ctx.events.append({'i': op['i'], 'op': 'detect',
+                           'outcome': 'remove-error-reported'})
+        return
     det = None
     if v is not None:
         try:
